@@ -178,10 +178,25 @@ class DeviceTypeAttribute(Unit):
         with world_installed(w):
             dev = X.call(devmod().SCSIDevice, PATH) if case["transport"] == "sgio" else X.call(iscsimod().ISCSIDevice, URL, "iqn.2000-01.test:initiator")
             X.setattr(dev, "devicetype", a.devicetype)
-            return X.getattr(dev, "devicetype")
+            got = X.getattr(dev, "devicetype")
+            # the command set the facade selects is what the device offers afterwards: same names, same codes
+            self.tables = []
+            for name in ("spc", "sbc", "ssc", "smc", "mmc"):
+                table = C.table(name)
+                X.setattr(dev, "opcodes", table)
+                back = X.getattr(dev, "opcodes")
+                want = {k: (getattr(table, k).value, getattr(table, k).serviceaction) for k in table.keys}
+                try:
+                    have = {k: (getattr(back, k).value, getattr(back, k).serviceaction) for k in back.keys}
+                except Exception as ex:
+                    have = "unreadable (%s)" % type(ex).__name__
+                self.tables.append((name, back is table, have == want, sorted(set(want) - set(have))[:3] if isinstance(have, dict) else have))
+            return got
 
     def ensures(self, case, a, out, X):
         yield "C16", "devicetype-read-back-is-what-the-facade-stored (%s)" % out.describe()[:40], out.kind == "return" and (out.value is a.devicetype or out.value == a.devicetype)
+        for name, same_obj, same_map, missing in getattr(self, "tables", []):
+            yield "C16", "selected-command-set-%s-is-what-the-device-offers-afterwards%s" % (name, "" if same_map else " (missing %s)" % (missing,)), same_obj or same_map
 
 
 register(DeviceTypeAttribute())
